@@ -82,7 +82,11 @@ def find_bad(values, enc, case):
     if len(values) == 1:
         return list(values)
     mid = len(values) // 2
-    return find_bad(values[:mid], enc, case) + find_bad(values[mid:], enc, case)
+    sub = find_bad(values[:mid], enc, case) + find_bad(values[mid:], enc, case)
+    if not sub:
+        # fails only as a whole batch (depends on the number of lines, not on one value): report what the whole batch lost
+        return bad[:20]
+    return sub
 
 
 def run_sweep(rec, seed, shard, nshards, tier):
@@ -319,7 +323,20 @@ def run_trained(rec, seed, shard, nshards, tier):
     core.hyp_run(rec, prop, cases(), n, seed)
 
 
+def run_large(rec, seed, shard, nshards, tier):
+    """Scale: files with more than 1000 / 2000 / 5000 lines through the real writer and both real loaders."""
+    from .c03 import word
+    for n in ({'quick': [999, 1000, 1001, 2001], 'thorough': [999, 1000, 1001, 1999, 2000, 2001, 4097, 10001]}[tier]):
+        vals = [word(i + 3, 6) for i in range(n)]
+        case = {'values_count': n, 'encoding': 'utf-8'}
+        bad = find_bad(vals, 'utf-8', case)
+        rec.case({'lines': n}, True, ['large_file'], key=['large', n])
+        if bad:
+            raise Violation('value_round_trip', f'a list of {n} values is not read back unchanged: {bad[:4]}', {'values': bad[:50], 'encoding': 'utf-8', 'lines': n})
+
+
 PARTS = [
+    Part('large_files', run_large, replay_values, {'quick': 1, 'thorough': 1}),
     Part('exhaustive_code_points', run_sweep, replay_values, {'quick': 16, 'thorough': 16}),
     Part('trained_rulesets_all_loaders', run_trained, replay_values, {'quick': 8, 'thorough': 16}),
 ]
